@@ -61,6 +61,27 @@ def expect_eq(interp, got, exp, what, guard=True):
             add(what + f".rank({got.ndim} vs {exp.ndim})", False)
         elif got.dt.kind != exp.dt.kind:
             add(what + f".dtype({got.dt.kind} vs {exp.dt.kind})", False)
+        elif exp.dt.kind == "obj":
+            # object array of optional cells: same cells present, and equal values where present
+            from .symlayout import opt_parts
+            for d, (a, b) in enumerate(zip(got.shape, exp.shape)):
+                add(f"{what}.shape[{d}]", eq(a, b))
+            idx = [ctx.fresh_const(f"ix{d}") for d in range(exp.ndim)]
+            inb = And(*[rng(0, i, s) for i, s in zip(idx, exp.shape)])
+            pg, xg = opt_parts(got.get(*idx))
+            pe, xe = opt_parts(exp.get(*idx))
+            zb = lambda p: p if isinstance(p, bool) else zbool(p)
+            add(what + ".cell_present", Implies(inb, zb(pg) == zb(pe) if not (isinstance(pg, bool) and isinstance(pe, bool)) else pg == pe))
+            if xe is not None:
+                if xg is None:
+                    add(what + ".cell_value", Implies(inb, Not(pe)))
+                else:
+                    ctx.solver.push()
+                    ctx.solver.add(zbool(inb), zbool(pe))
+                    try:
+                        G.extend(expect_eq(interp, xg, xe, what + ".cell", And(guard, inb, pe)))
+                    finally:
+                        ctx.solver.pop()
         else:
             for d, (a, b) in enumerate(zip(got.shape, exp.shape)):
                 add(f"{what}.shape[{d}]", eq(a, b))
@@ -459,7 +480,7 @@ CONTRACTS = {
 }
 # nested layout elements: _write / nBytes / _build / _segments
 _ITEM_CLASSES = ["MarkerTrack", "EMGTrack", "ForceTorqueTrack", "PlatformData", "PlatformInfo", "SeelabCamera", "BTSCamera",
-                 "OpticalChannel", "Event"]
+                 "OpticalChannel", "Event", "Data2DPCK"]
 for _n in _ITEM_CLASSES:
     _q = CLASS_OF[_n]
     CONTRACTS[_q + "._write"] = c_item_write
